@@ -348,7 +348,10 @@ XML_TYPES = [i for i in range(44) if i not in (20, 21, 22, 40, 41)]     # root o
 def xml_name(k):
     if isinstance(k, int) and not isinstance(k, bool):
         return k                     # the encoder writes k<i>
-    k = "".join(c if (c.isascii() and (c.isalnum() or c in "_")) else "_" for c in str(k))
+    k = str(k)
+    if k.startswith("@") and len(k) > 1:
+        return "@" + xml_name(k[1:])         # an attribute of the element
+    k = "".join(c if (c.isascii() and (c.isalnum() or c in "_")) else "_" for c in k)
     if not k or not (k[0].isalpha() or k[0] == "_"):
         k = "n" + k
     return k
@@ -544,9 +547,13 @@ INMAP = [("m", ("map", FLAT), [MX(2), R()]), ("z", "int", [R()])]
 DUP = [("x", "int", [RG(1, 5)]), ("x", "int", [R(), RG(2, 9, "second")]), ("v", "vecint", [MN(2), MX(3), R()])]
 MANY = [("f%d" % i, "int", [R("f%d missing" % i), RG(0, 9), EVEN]) for i in range(1, 6)]
 DEEP = [("list", ("vec", NESTED), [MN(1)]), ("k", "int", [R()])]
+# XML only: members serialized with AttributeValue ("attr_int" / "attr_str"; in documents: members keyed "@name")
+ATTR = [("id", "attr_int", [R(), RG(1, 5)]), ("name", "attr_str", [MN(2), MX(4)]), ("x", "int", [R()]), ("x", "attr_int", [RG(0, 9, "attr x")])]
+ATTRLIST = [("list", ("vec", ATTR), [MN(1)]), ("k", "attr_int", [R()])]
 CLASSES = [("obj", FLAT), ("obj", MULTI), ("obj", TEXT), ("obj", NESTED), ("obj", INARRAY), ("obj", INMAP),
-           ("obj", DUP), ("obj", MANY), ("vec", FLAT), ("obj", DEEP)]
-CLASS_NAMES = ["Flat", "Multi", "Text", "Nested", "InArray", "InMap", "Dup", "Many", "vector<Flat>", "Deep"]
+           ("obj", DUP), ("obj", MANY), ("vec", FLAT), ("obj", DEEP), ("obj", ATTR), ("obj", ATTRLIST)]
+CLASS_NAMES = ["Flat", "Multi", "Text", "Nested", "InArray", "InMap", "Dup", "Many", "vector<Flat>", "Deep", "Attr", "AttrList"]
+XML_ONLY_CLASSES = (10, 11)
 
 EMAILS = ["a@b.c", "john.smith@mail.example.com", "x@y", "a..b@c.d", "@b.c", "a@", "a@b.", "a@-b.c", "a@b-.c", "a@1b.c",
           "a b@c.d", "noat.example.com", ".a@b.c", "a.@b.c", "a@b..c", "a@b.c-d", "A_%+-=?^`{|}~!#$&'*/@Ex-ample.COM",
@@ -572,6 +579,17 @@ def gen_field_doc(ft, vs, rng, key, arch, strict=False):
     c = rng.random()
     if c < 0.12:
         return ABSENT
+    if ft == "attr_int":
+        if c < 0.30:
+            return rng.choice(["x", "", None, INT_MAX + 1, True])
+        b = bound_values(vs, ft)
+        return rng.choice(b + b + [0, 1, 2, 4, 6, 7, -1, 10, 11, rng.randrange(-20, 20)] + ["3", "7"])
+    if ft == "attr_str":
+        if c < 0.22:
+            return rng.choice([5, True, None, ""])
+        b = bound_values(vs, ft)
+        n = rng.choice(b + b + [0, 1, 3, 6]) if b else rng.randrange(0, 8)
+        return "".join(rng.choice("abcxyz") for _ in range(n))
     if ft == "int":
         if c < 0.20:
             return None
@@ -635,12 +653,13 @@ def gen_obj_doc(fields, rng, arch):
     members = M()
     seen = set()
     for key, ft, vs in fields:
-        if key in seen:
+        mkey = "@" + key if ft in ("attr_int", "attr_str") else key
+        if mkey in seen:
             continue
-        seen.add(key)
+        seen.add(mkey)
         d = gen_field_doc(ft, vs, rng, key, arch)
         if d is not ABSENT:
-            members.append((key, d))
+            members.append((mkey, d))
     if rng.random() < 0.3:
         rng.shuffle(members)
     if rng.random() < 0.15:
@@ -676,6 +695,8 @@ def gen_validate(rng, tier):
     for ci, (kind, fields) in enumerate(CLASSES):
         for _ in range(n_per):
             arch = rng.choice(["json", "json", "mp", "mp", "xml", "xml"] + (["csv", "csv"] if ci == 8 else []))
+            if ci in XML_ONLY_CLASSES:
+                arch = "xml"
             if kind == "obj":
                 doc = gen_obj_doc(fields, rng, arch)
             elif arch == "csv":
@@ -722,8 +743,13 @@ def xml_item_name(d):
     return "object" if isinstance(d, M) else "array" if isinstance(d, list) else "value"
 
 
+def xml_is_attr(k):
+    return isinstance(k, str) and k.startswith("@")
+
+
 def xml_members(d):
-    """members an object scope sees on the element that encodes d (d has no text)"""
+    """members an object scope sees on the element that encodes d (d has no text); attributes keep their '@' key and are
+    looked up by the attribute fields only"""
     if isinstance(d, M):
         return M(("k%d" % k if isinstance(k, int) and not isinstance(k, bool) else k, v) for k, v in d)
     if isinstance(d, list):
@@ -733,7 +759,7 @@ def xml_members(d):
 
 def xml_items(d):
     if isinstance(d, M):
-        return [v for _, v in d]
+        return [v for k, v in d if not xml_is_attr(k)]
     if isinstance(d, list):
         return list(d)
     return []
@@ -803,6 +829,18 @@ def expected_report(fields, members, path, arch, first_index, acc):
         md.setdefault(k, v)
     for key, ft, vs in fields:
         fp = path + "/" + key
+        if ft in ("attr_int", "attr_str"):
+            # AttributeValue: the attribute [key] of the element; same path as a child element of that name
+            present = ("@" + key) in md
+            d = md.get("@" + key)
+            if not present:
+                loaded, value = False, None
+            elif ft == "attr_str":
+                loaded, value = True, ("" if d is None or isinstance(d, (list,)) else ("true" if d else "false") if isinstance(d, bool) else str(d))
+            else:
+                loaded, value = py_load_scalar("int", d, "xml") if xml_has_text(d) else (False, None)
+            acc.append((fp, expected_messages(vs, loaded, value, len(value) if isinstance(value, str) else 0)))
+            continue
         present = key in md
         d = md.get(key)
         if ft in ("int", "str"):
@@ -830,6 +868,8 @@ def expected_report(fields, members, path, arch, first_index, acc):
                             expected_report(sub, xml_members(e), fp + "/" + xml_item_name(e), arch, first_index, acc)
                 elif loaded:
                     for k2, e in xml_members(d):
+                        if xml_is_attr(k2):
+                            continue
                         n += 1
                         if not xml_has_text(e):
                             expected_report(sub, xml_members(e), fp + "/" + str(k2), arch, first_index, acc)
@@ -954,7 +994,18 @@ def stream_vs_memory(vlib, impl, cases, oi, om, failing, limit=20):
     """implementation-only: the same documents through std::istream must answer exactly what the memory load answers
     (MsgPack: paths come from keys that are views into the stream reader's buffer - finding F54, repaired by a981807;
     JSON: RapidJSON IStreamWrapper + encoding detection; XML: pugixml load from stream).  Returns the number of stream runs."""
-    idx = [i for i, line in enumerate(cases) if line.split(" ")[1] in STREAM_VARIANT]
+    import re
+
+    def ascii_only(line):
+        for h in re.findall(r"s([0-9a-f]+)", line.split(" ", 4)[-1]):
+            if any(int(h[k:k + 2], 16) >= 0x80 for k in range(0, len(h) - 1, 2)):
+                return False
+        return True
+    # JSON text with a byte >= 0x80 that is not UTF-8 (the generators draw latin-1 bytes) is not a JSON document: the
+    # memory load passes such bytes through unvalidated while the stream load (transcoding input stream) reports
+    # ParsingError - observation A02, not a C17 / C18 matter; those cases are compared for MsgPack only (raw bytes)
+    idx = [i for i, line in enumerate(cases) if line.split(" ")[1] in STREAM_VARIANT
+           and (line.split(" ")[1] == "mp" or ascii_only(line))]
     if not idx:
         return 0
     sc = []
